@@ -47,7 +47,8 @@ func (t *CPUTensor) tanh() (o *CPUTensor) {
 func (t *CPUTensor) eq(u *CPUTensor) (o *CPUTensor) {
 	return applyBinaryFuncOnTensorsElemWise(t, u,
 		func(a, b float64) float64 {
-			if math.Abs(a-b) <= float64EqualityThreshold {
+			// a == b also covers equal infinities, whose difference is NaN
+			if a == b || math.Abs(a-b) <= float64EqualityThreshold {
 				return 1.
 			} else {
 				return 0.
@@ -58,7 +59,8 @@ func (t *CPUTensor) eq(u *CPUTensor) (o *CPUTensor) {
 func (t *CPUTensor) ne(u *CPUTensor) (o *CPUTensor) {
 	return applyBinaryFuncOnTensorsElemWise(t, u,
 		func(a, b float64) float64 {
-			if math.Abs(a-b) <= float64EqualityThreshold {
+			// a == b also covers equal infinities, whose difference is NaN
+			if a == b || math.Abs(a-b) <= float64EqualityThreshold {
 				return 0.
 			} else {
 				return 1.
